@@ -226,10 +226,13 @@ void Interpret::interp(ASTNode& n) {
                 if (isInitialized()) {
                     ASTNode const & asrt = **(n.children->begin());
                     LetRecords letRecords;
+                    // names registered by (! t :named n) inside the term must not survive a rejected assert
+                    std::size_t const namesBefore = main_solver->getTermNamesCount();
                     PTRef tr = parseTerm(asrt, letRecords);
-                    if (tr == PTRef_Undef)
+                    if (tr == PTRef_Undef) {
+                        main_solver->forgetTermNamesSince(namesBefore);
                         notify_formatted(true, "assertion returns an unknown sort");
-                    else {
+                    } else {
                         try {
                             main_solver->insertFormula(tr);
                             // only now: the position in `assertions` must equal the partition index given by the solver
@@ -237,6 +240,7 @@ void Interpret::interp(ASTNode& n) {
                             assertionLevels.push(main_solver->getAssertionLevel());
                             notify_success();
                         } catch (ApiException const & e) {
+                            main_solver->forgetTermNamesSince(namesBefore);
                             notify_formatted(true, e.what());
                         }
                     }
